@@ -63,7 +63,7 @@ impl G {
     fn envs(&mut self) -> Vec<Vec<(usize, i32)>> {
         let all = |x: i32| (0..4).map(|k| (k, x)).collect::<Vec<_>>();
         let mut out = vec![all(0), all(1), all(2)];
-        for _ in 0..3 {
+        for _ in 0..2 {
             out.push((0..4).map(|k| (k, self.r.pick(&[0, 1, 1, 2, 3, 4, 5]))).collect());
         }
         // negative values for unconstrained symbols (positive symbols stay >= 0 only if they
